@@ -326,7 +326,8 @@ def epanet_reference(s, units):
     """leg C reference: the hand-written INP text in `units`, run by EPANET through ctypes, converted to SI with the own
     unit table; returns (Sim-like object on the report grid, INP text)"""
     import numpy as np
-    txt = EN.inp_units(s, units)
+    # in three of the ten unit systems the valve settings are given the other legal way: a numeric [STATUS] entry
+    txt = EN.inp_units(s, units, status_settings=units in ("GPM", "LPS", "CMH"))
     links = [l["n"] for l in s["links"]]
     nodes = [n["n"] for n in s["nodes"]]
     steps = EN.run_hydraulics(txt, links=links, nodes=nodes)
